@@ -61,8 +61,10 @@ static Res case_dgmlt(Rng & r)
 }
 
 // ---------------------------------------------------------------- adaptive quadrature (decay0_gauss)
-struct FamPar { int fam; double p1, p2, p3; std::vector<double> coef; };
-static double fam_f(double x, void * vp)
+struct FamPar { int fam; double p1, p2, p3; std::vector<double> coef; double scale = 1.0; };
+static double fam_f1(double x, void * vp);
+static double fam_f(double x, void * vp) { return ((FamPar *)vp)->scale * fam_f1(x, vp); }
+static double fam_f1(double x, void * vp)
 {
   FamPar * f = (FamPar *)vp;
   switch (f->fam) {
@@ -73,7 +75,9 @@ static double fam_f(double x, void * vp)
   default: return f->p3 / ((x - f->p2) * (x - f->p2) + f->p3 * f->p3);
   }
 }
-static double fam_I(const FamPar & f, double a, double b)
+static double fam_I1(const FamPar & f, double a, double b);
+static double fam_I(const FamPar & f, double a, double b) { return f.scale * fam_I1(f, a, b); }
+static double fam_I1(const FamPar & f, double a, double b)
 {
   switch (f.fam) {
   case 0: { double s = 0; for (size_t i = 0; i < f.coef.size(); i++) s += f.coef[i] * (std::pow(b, i + 1) - std::pow(a, i + 1)) / (i + 1); return s; }
@@ -90,15 +94,18 @@ static Res case_gauss(Rng & r)
   switch (f.fam) {
   case 0: { int deg = r.range(0, 10); for (int i = 0; i <= deg; i++) f.coef.push_back(r.uniform(0.1, 1)); if (a < 0) { a = r.uniform(0, 1); b = a + L; } break; } // positive coefficients on x>=0: |I| is not a small difference
   case 1: f.p1 = r.uniform(0.5, 2); f.p2 = r.uniform(-3, 3); if (std::fabs(f.p2) < 0.05) f.p2 = 0.5; break;
-  case 2: f.p1 = r.uniform(1.5, 3); f.p2 = r.uniform(0.2, 6) / L * 2; f.p3 = r.uniform(0, 6); break;             // offset keeps |I| large; at most ~2 periods
-  case 3: f.p2 = a + r.uniform(0.2, 0.8) * L; f.p3 = r.uniform(0.15, 1.0) * L; break;                              // width >= 0.15 L
+  case 2: f.p1 = r.uniform(1.5, 3); f.p2 = (r.chance(0.5) ? r.uniform(0.4, 12) : r.uniform(12, 40)) / L; f.p3 = r.uniform(0, 6); break; // offset keeps |I| large; up to ~6 periods: needs the 43/87-point levels (measured: rel. error < 1e-14 up to 60 rad)
+  case 3: f.p2 = a + r.uniform(0.2, 0.8) * L; f.p3 = (r.chance(0.5) ? r.uniform(0.04, 0.15) : r.uniform(0.15, 1.0)) * L; break; // width >= 0.04 L (measured: rel. error < 1e-10 down to 0.03 L)
   default: f.p2 = a + r.uniform(0.2, 0.8) * L; f.p3 = r.uniform(0.25, 1.0) * L; break;                             // half-width >= 0.25 L
   }
+  // the tolerance asked for is RELATIVE: the contract is scale invariant.  Half of the cases multiply the integrand by 10^U(-30,6)
+  // (the library's own integrands - phase-space densities - are far from O(1))
+  int sdec = 0; if (r.chance(0.5)) { sdec = r.range(-30, 6); f.scale = std::pow(10.0, sdec) * r.uniform(1, 10); }
   double want = fam_I(f, a, b), got = bxdecay0::decay0_gauss(fam_f, a, b, eps, &f);
   static const char * fn[] = {"polynomial", "exp", "offset+sin", "gaussian", "lorentzian"};
-  char d[200]; snprintf(d, sizeof d, "decay0_gauss %s on [%.5g,%.5g] eps=%g", fn[f.fam], a, b, eps); res.desc = d;
+  char d[200]; snprintf(d, sizeof d, "decay0_gauss %s (x %.3g) on [%.5g,%.5g] eps=%g", fn[f.fam], f.scale, a, b, eps); res.desc = d;
   if (!(std::fabs(got - want) <= eps * std::fabs(want) + 1e-15 * std::fabs(want))) { res.ok = false; res.cls = std::string("gauss-tolerance-") + fn[f.fam]; res.msg = res.desc + ": got " + jnum(got) + " want " + jnum(want) + " rel.err " + jnum(std::fabs(got - want) / std::fabs(want)); }
-  res.nt = std::string("gauss|") + fn[f.fam] + "|eps" + std::to_string((int)std::lround(-std::log10(eps)));
+  res.nt = std::string("gauss|") + fn[f.fam] + "|eps" + std::to_string((int)std::lround(-std::log10(eps))) + (f.scale == 1.0 ? "|unscaled" : "|scale1e" + std::to_string(sdec / 6 * 6));
   return res;
 }
 
